@@ -1,14 +1,15 @@
 #!/bin/bash
-# usage: tools/import_seed.sh <worktree prefix, e.g. /tmp/wtb> <property id> <offset>   — copy <prefix>-<id>/_seed/{1,2} to seeded/<id>-(N+offset), list which checks report them
+# usage: tools/import_seed.sh <worktree prefix, e.g. /tmp/wtb> <property id> <offset> [count]  — copy <prefix>-<id>/_seed/{1..count} to seeded/<id>-(N+offset), list which checks report them
 set -u
-pre=$1; id=$2; off=${3:-2}
-for n in 1 2; do
+pre=$1; id=$2; off=${3:-2}; cnt=${4:-2}
+for n in $(seq 1 $cnt); do
   src=$pre-$id/_seed/$n
   [ -f $src/patch.diff ] || { echo "$id/$n: no patch.diff"; continue; }
   dst=/verif/seeded/$id-$((n+off))
   rm -rf $dst; mkdir -p $dst
   cp $src/patch.diff $src/meta.json $src/run.sh $dst/ 2>/dev/null
   cp $src/demo.* $src/*.c $src/*.cpp $src/*.h $src/*.sh $src/*.py $dst/ 2>/dev/null
+  [ -d $pre-$id/_seed/common ] && cp -r $pre-$id/_seed/common $dst/common 2>/dev/null
   sed -i "s|$pre-$id|\${SOFTHSM_SRC:-/repo}|g" $dst/run.sh
   echo "== $id-$((n+off)): $(python3 -c "import json;print(json.load(open('$dst/meta.json'))['summary'][:300])" 2>/dev/null)"
   (cd /verif && ./verif seed seeded/$id-$((n+off)) $id 2>&1 | tail -1)
